@@ -1,0 +1,29 @@
+//go:build verif
+// +build verif
+
+package network
+
+import "net"
+
+// Accessors for the verification harness (property C03); compiled only with
+// the build tag "verif".
+
+// VerifNewTCPConn wraps an established net.Conn (e.g. one end of a net.Pipe,
+// where every Write is handed out to the reader segment by segment) into a
+// TCPConn exactly as the listener and NewTCPConn do.
+func VerifNewTCPConn(c net.Conn, s Suite) *TCPConn {
+	return &TCPConn{conn: c, suite: s}
+}
+
+// VerifReceiveRaw exposes receiveRaw: one length-prefixed frame off the
+// connection.
+func (c *TCPConn) VerifReceiveRaw() ([]byte, error) {
+	return c.receiveRaw()
+}
+
+// VerifSendRaw exposes sendRaw: one length-prefixed frame onto the connection.
+func (c *TCPConn) VerifSendRaw(b []byte) (uint64, error) {
+	c.sendMutex.Lock()
+	defer c.sendMutex.Unlock()
+	return c.sendRaw(b)
+}
